@@ -47,8 +47,8 @@ class CAA(dns.rdata.Rdata):
         cls, rdclass, rdtype, tok, origin=None, relativize=True, relativize_to=None
     ) -> "CAA":
         flags = tok.get_uint8()
-        tag = tok.get_string().encode()
-        value = tok.get_string().encode()
+        tag = tok.get_string_as_bytes()
+        value = tok.get_string_as_bytes()
         return cls(rdclass, rdtype, flags, tag, value)
 
     def _to_wire(self, file, compress=None, origin=None, canonicalize=False):
